@@ -3,6 +3,7 @@
 Explicit-state BFS over application call histories x server scripts (connect, k frames, disconnect at every position) x server-send
 fault positions. A state is a history replayed on a fresh real WebSocket; merged on (both state attributes, script position,
 monitor state, frames returned, iterator status, forwarded count)."""
+import asyncio
 import itertools
 
 from ..core.result import R
@@ -41,6 +42,10 @@ def script_messages(frames):
 
 
 class Blocked(Exception):
+    pass
+
+
+class Runaway(BaseException):
     pass
 
 
@@ -243,9 +248,193 @@ def build(frames, fault, hist):
     return w, results
 
 
+PAIR_OPS = ["accept", "receive_text", "send_text", "close"]
+PAIR_LEN = {"quick": 2, "thorough": 3}
+
+
+def pair_histories(n):
+    out = []
+    for k in range(1, n + 1):
+        out += list(itertools.product(PAIR_OPS, repeat=k))
+    return out
+
+
+def run_pair(ha, hb, order):
+    """Two connections open at once, each with its own WebSocket object (created at its first call); `order` says whose call
+    comes next. Returns per connection (results, forwarded types, states)."""
+    worlds = [None, None]
+    hs = (ha, hb)
+    pos = [0, 0]
+    res = ([], [])
+    for who in order:
+        if worlds[who] is None:
+            worlds[who] = World(("t", "t"), None)
+        res[who].append(worlds[who].run(hs[who][pos[who]]))
+        pos[who] += 1
+    return [(res[i], [m["type"] for m in worlds[i].forwarded], worlds[i].states, judge(worlds[i], hs[i])) for i in (0, 1)]
+
+
+def pairs_family(r, tier, k, n):
+    """Every pair of short call sequences on two connections, in every merge order: each connection behaves as it does alone."""
+    hists = pair_histories(PAIR_LEN[tier])
+    solo = {}
+    for h in hists:
+        w, results = build(("t", "t"), None, h)
+        solo[h] = (results, [m["type"] for m in w.forwarded], w.states)
+    for ha in hists[k::n]:
+        for hb in hists:
+            for order in SV.merge_orders(len(ha), len(hb)):
+                try:
+                    out = run_pair(ha, hb, order)
+                except Blocked as e:
+                    r.violation("pairs:operation-suspended", {"pairs": [list(ha), list(hb)], "order": list(order)}, str(e))
+                    continue
+                r.count("evaluations")
+                r.count("transitions", len(order))
+                r.count("traces")
+                r.count("distinct_nontrivial")
+                for i, h in enumerate((ha, hb)):
+                    got = out[i][:3]
+                    if out[i][3]:
+                        r.violation("pairs:" + classify(out[i][3][0]), {"pairs": [list(ha), list(hb)], "order": list(order)},
+                                    f"two connections {list(ha)} / {list(hb)} in order {order}: connection {i}: {out[i][3][0]}")
+                    elif got != solo[h]:
+                        r.violation("pairs:differs-from-alone", {"pairs": [list(ha), list(hb)], "order": list(order)},
+                                    f"two connections open at once, calls {list(ha)} / {list(hb)} in order {order}: connection {i} gave results {got[0]} forwarding {got[1]} with states {got[2]}; alone it gives {solo[h][0]} forwarding {solo[h][1]} with states {solo[h][2]}")
+    r.count("states", len(hists))
+    r.sample({"pairs": [list(hists[-1]), list(hists[0])], "orders": "every merge order"})
+
+
+CONC_PROGRAMS = [
+    (("accept", "send_text"), ("send_bytes",), ("close",)),
+    (("accept", "send_text", "close"), ("send_text",)),
+    (("accept",), ("close",), ("send_text",)),
+    (("accept", "close"), ("close",), ("send_text",)),
+    (("accept", "receive_text", "send_text"), ("send_text", "close")),
+    (("accept", "send_text"), ("close_1001",), ("raw_send",)),
+    (("accept", "send_text", "send_text"), ("close_1001",), ("raw_send",)),  # thorough only (200 k schedules)
+]
+
+
+def run_concurrent(prefix, program):
+    """Several tasks call one WebSocket object while the server's send() completes whenever the explorer says. The forwarded
+    sequence is what the server sees, in the order its send() was entered."""
+    from baize.asgi import WebSocket
+    from ..core.vloop import Session
+    msgs = script_messages(("t", "t"))
+    st = {"pos": 0, "n": 0}
+    forwarded, outcomes = [], {}
+    with Session() as s:
+        async def receive():
+            m = dict(msgs[min(st["pos"], len(msgs) - 1)])
+            st["pos"] += 1
+            return m
+
+        async def send(message):
+            forwarded.append(dict(message))
+            st["n"] += 1
+            await s.env.gate(f"send{st['n']:02d}")
+
+        ws = WebSocket({"type": "websocket", "path": "/", "headers": [], "query_string": b""}, receive, send)
+        wd = World.__new__(World)
+        wd.ws, wd.iters = ws, {}
+
+        async def job(i, ops):
+            out = []
+            for k, op in enumerate(ops):
+                await s.env.gate(f"call{i}{k}")  # the explorer decides whose call comes next
+                try:
+                    out.append(("ok", await wd._coro(op)))
+                except Exception as e:  # noqa
+                    out.append(("raise", type(e).__name__))
+                outcomes[i] = out
+
+        async def main():
+            await asyncio.gather(*[job(i, ops) for i, ops in enumerate(program)])
+        task = s.loop.create_task(main())
+        x = s.drive(task, prefix)
+        x.obs = {"stuck": x.obs["stuck"], "trace": x.obs["trace"], "forwarded": forwarded, "outcomes": outcomes, "app_state": ws.application_state.value}
+    return x
+
+
+def judge_concurrent(o):
+    if o["stuck"]:
+        return [f"STUCK ({o['stuck']}): calls never returned although the server completed every send; trace {o['trace'][-8:]}"]
+    st, p = monitor(o["forwarded"])
+    return ["forwarded sequence illegal: " + p + f" (forwarded {[m['type'] for m in o['forwarded']]})"] if p else []
+
+
+def run_denial_stream(prefix, kind):
+    """A refused handshake answered (denial-response extension) by a streaming response while the client goes away at any
+    moment: explorer events are the producer's steps and the disconnect."""
+    from baize import asgi as A
+    from ..core.vloop import Session
+    o = {"sent": [], "receive_calls": 0, "after_disconnect": 0, "delivered": False, "delivered_at": None, "post": [], "exc": None}
+    with Session() as s:
+        env = s.env
+
+        async def gen():
+            for i in range(3):
+                await env.gate(f"p{i}")
+                yield (b"%d;" % i) if kind == "stream" else {"data": str(i)}
+
+        async def receive():
+            o["receive_calls"] += 1
+            if o["receive_calls"] == 1:
+                return {"type": "websocket.connect"}
+            if o["delivered"]:
+                o["after_disconnect"] += 1
+                if o["after_disconnect"] > 20:
+                    raise Runaway("receive() polled in a loop after the disconnect")  # (a loop that never yields would hang the explorer)
+                return {"type": "websocket.disconnect", "code": 1006}
+            await env.gate("zz-client-leaves")
+            o["delivered"] = True
+            o["delivered_at"] = len(o["sent"])
+            return {"type": "websocket.disconnect", "code": 1006}
+
+        async def send(m):
+            o["sent"].append((m["type"], m.get("body"), m.get("more_body")))
+
+        resp = A.StreamResponse(gen()) if kind == "stream" else A.SendEventResponse(gen(), ping_interval=1000)
+        scope = {"type": "websocket", "path": "/", "headers": [], "query_string": b"", "extensions": {"websocket.http.response": {}}}
+        task = s.loop.create_task(A.WebsocketDenialResponse(resp)(scope, receive, send))
+        x = s.drive(task, prefix, max_timers=0, horizon=3000)
+        if task.done() and not task.cancelled() and task.exception():
+            o["exc"] = repr(task.exception())
+        o["stuck"] = x.obs["stuck"]
+        o["trace"] = x.obs["trace"]
+        o.update(s.quiescence())
+    x.obs = o
+    return x
+
+
+def judge_denial_stream(o):
+    p = []
+    if o["stuck"] == "horizon":
+        return ["the denial response never ended (step horizon reached); trace tail " + str(o["trace"][-6:])]
+    if o["after_disconnect"]:
+        p.append(f"{o['after_disconnect']} receive() issued after websocket.disconnect was delivered")
+    bad = [t for t, _, _ in o["sent"] if not t.startswith("websocket.http.response.")]
+    if bad:
+        p.append(f"illegal event types {bad}")
+    if o["delivered_at"] is not None:
+        late = [b for t, b, m in o["sent"][o["delivered_at"]:] if b]
+        if len(late) > 1:
+            p.append(f"{len(late)} body chunks forwarded after the disconnect was delivered")
+    if o["exc"]:
+        p.append(f"raised {o['exc']}")
+    if o["stuck"] is None and o["pending_tasks"]:
+        p.append(f"{o['pending_tasks']} task(s) left pending")
+    return p
+
+
 def shards(tier, seed):
     out = [("bfs", fi, fault) for fi in range(len(FRAMES)) for fault in FAULTS]
     out.append(("dispatch",))
+    n = 4 if tier == "quick" else 12
+    out += [("pairs", k, n) for k in range(n)]
+    out += [("concurrent", i) for i in range(len(CONC_PROGRAMS) - (1 if tier == "quick" else 0))]
+    out += [("denial_stream", kind) for kind in ("stream", "sse")]
     return out
 
 
@@ -253,6 +442,46 @@ def run_shard(desc, tier):
     r = R()
     if desc[0] == "dispatch":
         dispatch(r)
+        return r
+    if desc[0] == "pairs":
+        pairs_family(r, tier, desc[1], desc[2])
+        return r
+    if desc[0] == "denial_stream":
+        from ..core.explore import dfs
+        kind = desc[1]
+        outs = set()
+
+        def on_exec(x):
+            r.count("evaluations")
+            r.count("traces")
+            r.count("transitions", len(x.choices))
+            r.count("distinct_nontrivial")
+            outs.add((len(x.obs["sent"]), x.obs["delivered_at"], x.obs["receive_calls"]))
+            probs = judge_denial_stream(x.obs)
+            if probs:
+                r.violation("denial-stream:" + classify(probs[0]), {"denial_stream": kind, "schedule": list(x.choices)}, f"WebsocketDenialResponse over a {kind} response, schedule {x.obs['trace']}: {probs[0]}")
+        dfs(lambda prefix: run_denial_stream(prefix, kind), on_exec)
+        r.count("states", len(outs))
+        r.sample({"denial_stream": kind, "events": "producer steps and the client's disconnect, every order"})
+        return r
+    if desc[0] == "concurrent":
+        from ..core.explore import dfs
+        program = CONC_PROGRAMS[desc[1]]
+        outs = set()
+
+        def on_exec(x):
+            r.count("evaluations")
+            r.count("traces")
+            r.count("transitions", len(x.choices))
+            outs.add(tuple(m["type"] for m in x.obs["forwarded"]))
+            probs = judge_concurrent(x.obs)
+            if probs:
+                r.violation("concurrent:" + ("stuck" if probs[0].startswith("STUCK") else "illegal-forwarded-sequence"), {"concurrent": [list(p) for p in program], "schedule": list(x.choices)},
+                            f"tasks {program} calling one WebSocket object, schedule {x.obs['trace']}: {probs[0]}")
+        dfs(lambda prefix: run_concurrent(prefix, program), on_exec)
+        r.count("states", len(outs))
+        r.count("distinct_nontrivial", len(outs))
+        r.sample({"concurrent": [list(p) for p in program], "schedules": "every interleaving of task steps and send completions"})
         return r
     _, fi, fault = desc
     frames = FRAMES[fi]
@@ -433,6 +662,22 @@ def finish(merged, tier):
 
 def replay(w):
     r = R()
+    if "pairs" in w:
+        out = run_pair(tuple(w["pairs"][0]), tuple(w["pairs"][1]), tuple(w["order"]))
+        solo = []
+        for h in w["pairs"]:
+            wd, results = build(("t", "t"), None, tuple(h))
+            solo.append((results, [m["type"] for m in wd.forwarded], wd.states))
+        bad = [i for i in (0, 1) if out[i][3] or out[i][:3] != solo[i]]
+        return bool(bad), {"connections": bad, "got": [o[:3] for o in out], "alone": solo}
+    if "denial_stream" in w:
+        x = run_denial_stream(list(w["schedule"]), w["denial_stream"])
+        probs = judge_denial_stream(x.obs)
+        return bool(probs), {"problems": probs, "trace": x.obs["trace"]}
+    if "concurrent" in w:
+        x = run_concurrent(list(w["schedule"]), tuple(tuple(p) for p in w["concurrent"]))
+        probs = judge_concurrent(x.obs)
+        return bool(probs), {"problems": probs, "trace": x.obs["trace"]}
     if "dispatch" in w:
         dispatch(r)
         return bool(r.viol), {"violations": sorted(r.viol)}
